@@ -354,6 +354,9 @@ class _Gen:
         if n is None:
             n = self.draw(st.integers(1, 6))
         t = self.draw(st.text(alphabet=alpha, min_size=n, max_size=n))
+        if n >= 4 and self.boolean(0.15):
+            # inner white space is part of the constant: runs of blanks, a tab
+            t = t[0] + self.pick(["  ", " \t", "\t ", "   "[:2]]) + t[3:]
         # text is stripped by the XML reader; keep the length stable
         if t != t.strip() or not t:
             t = "q" * max(1, n)
